@@ -46,7 +46,7 @@ void harness(void) {
 #ifdef CONCRETE_IDS
     /* delete queries: ids concretised to distinct constants (the real code only compares ids for equality, through std::map);
        states, maxFileId and the probe id stay symbolic */
-    id[0] = 5; id[1] = 9; id[2] = 12; ASSUME(mx >= 12);
+    id[0] = 5; id[1] = 9; id[2] = 12; ASSUME(mx >= (NPRE >= 3 ? 12 : (NPRE == 2 ? 9 : (NPRE == 1 ? 5 : -1))));   /* >= the LIVE ids only: the highest live id may be the maximum itself */
 #endif
     for(i = 0; i < 3; i++) { ids[i] = id[i]; sts[i] = st[i]; slots[i] = i; }
     w_init(owns & 1);
